@@ -100,6 +100,12 @@ func (mgr *bindingManager) create(addr net.Addr) *binding {
 	mgr.mutex.Lock()
 	defer mgr.mutex.Unlock()
 
+	// Concurrent writers to a new peer can both miss in findByAddr and arrive here: the peer
+	// keeps the binding the first of them made instead of getting a second channel number.
+	if existing, ok := mgr.addrMap[addr.String()]; ok {
+		return existing
+	}
+
 	b := &binding{
 		number:       mgr.assignChannelNumber(),
 		addr:         addr,
